@@ -109,10 +109,17 @@ package symbols
 //@   modifies nothing
 //@   ensures result ==> (forall c ast.Constant :: member(typeCtx, left, c) ==> member(typeCtx, right, c))
 
+//@ spec func atLeast(ctx map[ast.Variable]ast.BaseTerm, x ast.BaseTerm, y ast.BaseTerm) bool = x == y || (forall c ast.Constant :: member(ctx, x, c) ==> member(ctx, y, c))
+// The postcondition of UpperBound is ASSUMED; its body is checked for one thing: while the alternatives are reduced, an
+// alternative is only ever replaced by one that has at least its members, and none is dropped - so no input loses members.
 //@ func UpperBound(typeCtx, typeExprs)
-//@   trusted
+//@   opt assumeensures
+//@   opt assumeframe
+//@   opt nosafety
 //@   modifies nothing
 //@   ensures forall c ast.Constant :: member(typeCtx, result, c) ==> (exists k int :: 0 <= k && k < len(typeExprs) && member(typeCtx, typeExprs[k], c))
+//@   loop 3 invariant reduced == at(2, reduced)
+//@   loop 2 atback len(reduced) >= len(prev(reduced)) && (forall r int :: 0 <= r && r < len(prev(reduced)) ==> atLeast(typeCtx, prev(reduced)[r], reduced[r]))
 
 //@ spec func within(ctx map[ast.Variable]ast.BaseTerm, r ast.BaseTerm, a ast.BaseTerm, b ast.BaseTerm) bool = forall c ast.Constant :: member(ctx, r, c) ==> member(ctx, a, c) && member(ctx, b, c)
 //@ func intersectType(typeCtx, a, b)
